@@ -27,7 +27,7 @@ CHECKS = {
  "C07": ("fault_enumeration",
    "exhaustive enumeration of the grid base scenario x step index x termination cause x Stop held/handled x role (plus every byte offset inside the packet being delivered for peer close / read error), teardown oracle over the application log and owned futures; thorough tier additionally a coverage-guided libFuzzer campaign (target `sink`) over byte-encoded histories judged by the same oracle",
    "Nine base scenarios (idle; publishes in flight with gated handlers; inbound payload half received with a reader waiting; outbound sends awaiting acknowledgement; senders parked on a full window; ready() parked on write back-pressure; outbound stream half written; "
-   "gated protocol handler with packets buffered; mixed) x every step index x 12-17 causes per role x Stop notification handled at once or held open x four roles; byte offsets 1..39 inside inbound packets for peer close / read error. "
+   "gated protocol handler with packets buffered; mixed) x every step index x 12-17 causes per role x Stop notification handled at once or held open x four roles; byte offsets 1..39 inside inbound packets for peer close / read error; a send started while the Stop notification is being handled; the peer going away while the handshake service is still deciding (servers). "
    "Exactly one Stop of the class the cause demands and no control call after it, every owned future resolved, no clean end of an incomplete payload, no handler cancelled before the held Stop was handled and none left running, connection task finished, no panic.",
    "Trusted: as C03. Keep-alive expiry is a real-time cause after the last step of each scenario (server roles; timing itself is C20's subject); a failing back-pressure notification does not end the connection in this library and is only required not to break teardown.",
    "DESIGN.md section 3 C07"),
